@@ -192,7 +192,7 @@ def write_evidence(ctx: Ctx, wall, violations, known_hits, extra=None, path=None
         d["instances"] += 1
         d["ok" if r["verdict"] == "ok" else "violation"] += 1
     cov = {
-        "explanation": ctx.explanation,
+        "explanation": ctx.explanation + " || Structural clauses decided on this run, one per rule: " + " ; ".join(f"{k}: {ctx.rules_doc.get(k, '')}" for k in rules),
         "obligations": len(recs),
         "discharged": sum(1 for r in recs if r["verdict"] == "ok"),
         "evaluations": len(recs),
@@ -205,7 +205,7 @@ def write_evidence(ctx: Ctx, wall, violations, known_hits, extra=None, path=None
         "functions_indexed": sum(len(m.funcs) for m in ctx.repo.modules.values()),
         "modules_consulted": dict(sorted(ctx.repo.consulted.items())),
         "typed": ctx.typed,
-        "canonicalisation": "sa/canon.py K1-K6 and sa/alpha.py (renamed locals restored to the reference spelling by consistent renaming) applied to every module at load time",
+        "canonicalisation": "sa/canon.py K1-K8 and sa/alpha.py (renamed locals restored to the reference spelling by consistent renaming) applied to every module at load time",
         "locals_restored": {rel: m.alpha for rel, m in sorted(ctx.repo.modules.items()) if rel in ctx.repo.consulted and getattr(m, "alpha", None)},
         "observations": ctx.observations,
         "known_findings_reported": known_hits,
